@@ -291,8 +291,20 @@ def peer(run, model):
     if rp is None:
         g2 += gen_block.peer_g2_cases(r, 1500 if quick else 20000)
     go, gcr = vlib.run_lines_robust(drv, g2, timeout=1500) if g2 else ([], [])
+    gm = []
+    for d in g2:
+        t = d.split()
+        gm.append("blkpeerg2 %s %s %s %s" % (t[2], t[3], "0" if t[4] == "7" else t[4], " ".join(t[5:])))
+    gmo, _ = vlib.run_lines_robust(model, gm, timeout=1500) if gm else ([], [])
     ng2 = 0
-    for d, b in zip(g2, go):
+    ng2tie = 0
+    for d, b, mline, mo_ in zip(g2, go, gm, gmo):
+        if mo_ != b:
+            ng2tie += 1
+            if ng2tie <= 2:
+                run.violation("scripted GET peer: the server's replies differ from the lg_xmit table model",
+                              "case: %s\nmodel case: %s\nmodel: %s\nimpl : %s\n" % (d, mline, mo_, b),
+                              tag="peerg2tie%d" % ng2tie, no_input=True)
         run.count(d, b.count("R:69") >= 3)
         run.hist("peer_dir", "g2")
         if ":!" in b or b.startswith("CRASH") or "END" not in b:
@@ -304,6 +316,7 @@ def peer(run, model):
                               "case: %s\nimpl : %s\n" % (d, b), tag="peerg2_%d" % ng2)
     run.cov["peer_g2_cases"] = len(g2)
     run.cov["peer_g2_wrong"] = ng2
+    run.cov["peer_g2_tie_disagreements"] = ng2tie
     run.cov["peer_cases"] = len(cases)
     run.cov["peer_honest_cases"] = ncons
     run.cov["peer_mixed_deliveries"] = nmix
